@@ -19,7 +19,7 @@ F = {
     "N6": "C02-N6-like-templates-unparenthesised",
 }
 
-DISHONEST = {"tmpl:div_i", "tmpl:math.log"}
+DISHONEST = {"tmpl:div_i", "tmpl:math.log"}   # F5, repaired by /repo af135b8: kept as a name only, no classifier consults it
 # C02-N7: the parent is an f-string (process_concat) on a dialect that spells concatenation `||`
 # (Model/SqlCompat.v known_concat_part; of the two executable dialects only sqlite: concat_fine_except_parts_next_to_bars)
 NO_CONCAT_FUNCTION = {"sqlite"}
